@@ -92,13 +92,14 @@ class RunRecord:
 
 
 def real_run(driver, init, limit, script=(), entry="fit", orders=None, task_fault=None,
-             phase_fault=None, pool="virtual", relabel_script=None):
-    """One complete run of the real code under scripted seams."""
+             phase_fault=None, pool="virtual", relabel_script=None, real_random=False):
+    """One complete run of the real code under scripted seams (real_random: the donor draw is left to the
+    library's own use of the global generator; the caller seeds it)."""
     import fast_ticc
     from fast_ticc import main_loop
     TRACER.install()
     TRACER.begin(init_labels=init, donor_script=script, pool_factory=pool, orders=orders,
-                 task_fault=task_fault, phase_fault=phase_fault)
+                 task_fault=task_fault, phase_fault=phase_fault, real_random=real_random)
     if relabel_script is not None:
         TRACER.relabel_script = [list(l) for l in relabel_script]
     rec = RunRecord()
